@@ -68,10 +68,14 @@ fn run_conc(cfg: &ConcCfg, rng: &mut Rng, sid: u64) -> ConcOutcome {
     let mut viol: Vec<V> = Vec::new();
     let mut obs: Vec<(String, u64)> = Vec::new();
     let mut builder = QueuingMetricSink::builder();
+    let handler_first = sid % 2 == 0;
+    if cfg.handler && handler_first {
+        builder = builder.with_error_handler(handler_for(sh.clone()));
+    }
     if let Some(c) = cfg.cap {
         builder = builder.with_capacity(c);
     }
-    if cfg.handler {
+    if cfg.handler && !handler_first {
         builder = builder.with_error_handler(handler_for(sh.clone()));
     }
     let q = builder.build(GatedSink { sh: sh.clone() });
